@@ -108,11 +108,29 @@ def inline_into(raw, raws, should_inline, stack=(), depth=0, log=None):
             i += 1
             continue
         g = inline_into(g, raws, should_inline, stack + (raw['path'],), depth + 1, log)
-        splice(out, i, g, t['args'], t['dest'], t.get('target'), t.get('unwind'), t, p)
         if log is not None:
-            log.append((raw['path'], p))
+            log.append((raw['path'], p, [_closure_arg(out, a) for a in t['args']]))
+        splice(out, i, g, t['args'], t['dest'], t.get('target'), t.get('unwind'), t, p)
         i += 1
     return out
+
+
+def _closure_arg(raw, op):
+    """def-path of the closure literal passed as this argument, if it is one"""
+    if op.get('k') not in ('copy', 'move') or op['place']['p']:
+        return None
+    l = op['place']['l']
+    found = None
+    for b in raw['blocks']:
+        for s in b['stmts']:
+            if s['k'] == 'assign' and s['place']['l'] == l and not s['place']['p']:
+                if found is not None:
+                    return None
+                found = s['rv'].get('closure') or False
+        t = b['term']
+        if t['k'] == 'call' and t['dest']['l'] == l:
+            return None
+    return found or None
 
 
 def splice(out, i, g, args, dest, target, unwind_to, t, p):
